@@ -293,8 +293,23 @@ def announcement(chk: Check) -> None:
             (f'{fparam}.LABEL' in norm(v_) and '.value' in norm(v_)) or isinstance(v_, ast.Constant) for v_ in flv)
     chk.ob('DOM-announcement', oe, ok, 'the subject is state_changed.<label left>.<label entered>, in that order, built from the previous state\'s label value and the current one',
            node=call, kind='subject-from-to')
-    # tolerated failures
-    tries = [t for t in ast.walk(oe.node) if isinstance(t, ast.Try) and any(x is call for s2 in t.body for x in ast.walk(s2))]
+    tolerated_broadcast_failures(chk, 'ESC-tolerated-broadcast-failures')
+    # the hook runs for every transition: ENTERED_STATE wiring is C02's; here: on_entered is reached with the state left
+    chk.ob('DOM-announcement', oe, oe.params[1:] == ['from_state'] or len(oe.params) == 2, 'on_entered receives the state that was left', kind='from-state-parameter')
+    # the hooks dispatched before it cannot skip it: it is not inside the label ladder
+    from ..report import structural_path
+    chk.ob('DOM-announcement', oe, 'state_label' not in structural_path(oe, s.ast), 'the announcement is outside the per-state ladder (made for every state)', kind='for-every-state')
+
+
+def tolerated_broadcast_failures(chk: Check, rule: str) -> None:
+    """The state-change broadcast in on_entered may fail for reasons that are nobody's fault (connection closed, channel invalid, timeout): those are caught
+    and not re-raised -- an exception escaping on_entered AFTER the state was entered makes the machine treat the completed transition as failed (C02: a second
+    terminal notification, an EXCEPTED process whose future already delivered a result)."""
+    prog = chk.prog
+    oe = prog.func('processes.Process.on_entered')
+    sends = [c for c in calls_in_func(oe, 'broadcast_send')]
+    call = sends[0] if sends else None
+    tries = [t for t in ast.walk(oe.node) if isinstance(t, ast.Try) and call is not None and any(x is call for s2 in t.body for x in ast.walk(s2))]
     caught = set()
     reraises = False
     for t in tries:
@@ -304,12 +319,7 @@ def announcement(chk: Check) -> None:
                 caught.add(norm(nme).split('.')[-1] if norm(nme) != 'kiwipy.TimeoutError' else 'kiwipy.TimeoutError')
             reraises |= any(isinstance(x, ast.Raise) for s2 in h.body for x in ast.walk(s2))
     ok = {'ConnectionClosed', 'ChannelInvalidStateError', 'kiwipy.TimeoutError'} <= caught and not reraises
-    chk.ob('ESC-tolerated-broadcast-failures', oe, ok, f'a closed connection, an invalid channel and a timeout of the broadcast are caught and not re-raised (caught: {sorted(caught)})', kind='tolerated')
-    # the hook runs for every transition: ENTERED_STATE wiring is C02's; here: on_entered is reached with the state left
-    chk.ob('DOM-announcement', oe, oe.params[1:] == ['from_state'] or len(oe.params) == 2, 'on_entered receives the state that was left', kind='from-state-parameter')
-    # the hooks dispatched before it cannot skip it: it is not inside the label ladder
-    from ..report import structural_path
-    chk.ob('DOM-announcement', oe, 'state_label' not in structural_path(oe, s.ast), 'the announcement is outside the per-state ladder (made for every state)', kind='for-every-state')
+    chk.ob(rule, oe, ok, f'a closed connection, an invalid channel and a timeout of the broadcast are caught and not re-raised (caught: {sorted(caught)})', kind='tolerated')
 
 
 def subscriptions(chk: Check) -> None:
@@ -356,6 +366,9 @@ def subscriptions(chk: Check) -> None:
     chk.ob('PAIR-subscription', rf, ok, 'a process loaded from a saved state subscribes to the communicator only while it is live (or is closed again straight away)' + ('' if ok else
            ': recreate_from runs init() whatever the loaded state is, init() subscribes unconditionally, and nothing ever runs the cleanups of a process that was loaded FINISHED / EXCEPTED / '
            'KILLED -- it keeps receiving kill / status / pause messages'), node=rcalls[0] if rcalls else None, kind='loaded-terminated-not-subscribed')
+    # the un-subscriptions are per process: the list they are kept in is not shared between instances
+    from .common import no_shared_mutable_class_state
+    no_shared_mutable_class_state(chk, 'PAIR-subscription')
     # the broadcast filter lets the three control subjects through
     flt = [c for c in calls_in_func(init, 'BroadcastFilter')]
     ok = False
@@ -374,6 +387,12 @@ def subscriptions(chk: Check) -> None:
             ok = all(pat.match(intents[i]) for i in ('PLAY', 'PAUSE', 'KILL'))
             detail = f'pattern {subj.args[0].value!r}; also rejects state_changed.*: {not pat.match("state_changed.created.running")}'
     chk.ob('PAIR-subscription', init, ok, f'the broadcast filter accepts the play / pause / kill subjects ({detail})', kind='filter-accepts-intents')
+    # ... from whoever sends them: the filter restricts the SUBJECT only.  (kiwipy's BroadcastFilter compares a ``sender`` argument with the sender of the message;
+    # any such restriction -- a predicate is simply compared for equality -- drops control broadcasts whose sender identifies itself)
+    if len(flt) == 1:
+        extra = [k.arg or '**' for k in flt[0].keywords if k.arg != 'subject'] + (['<positional>'] if len(flt[0].args) > 1 else [])
+        chk.ob('PAIR-subscription', init, not extra, 'the broadcast filter restricts the subject and nothing else' + ('' if not extra else f': it also filters on {extra} -- a control '
+               'broadcast from a sender that names itself is no longer delivered, while the direct call still works'), node=flt[0], kind='filter-subject-only')
     ff = chk.ctx.facts.analyse(init)
     subs = [n for n in cfg.nodes if any(last_name(c) in ('add_rpc_subscriber', 'add_broadcast_subscriber') for c in _calls(n))]
     from ..report import structural_path
